@@ -120,7 +120,7 @@ taskreport {report_id} "{report_id}" {{
 """
 
     # Read original file first: if that fails (unreadable, not UTF-8) there is nothing to clean up
-    with open(tjp_path) as f:
+    with open(tjp_path, encoding="utf-8") as f:
         original_content = f.read()
 
     # Create temporary file with random suffix (safe for concurrent execution)
@@ -129,7 +129,7 @@ taskreport {report_id} "{report_id}" {{
 
     # Write combined content and close file descriptor
     try:
-        with os.fdopen(temp_fd, "w") as f:
+        with os.fdopen(temp_fd, "w", encoding="utf-8") as f:
             # Include original file
             f.write(f"# Original file: {tjp_path}\n")
             f.write("# Auto-report added by plan CLI\n\n")
@@ -279,7 +279,8 @@ def report(ctx: click.Context, tjp_file: Optional[str], output_csv: bool, output
             if verbose:
                 logger.debug("Reading .tjp content from stdin")
 
-            stdin_content = sys.stdin.read()
+            # Project text is UTF-8 whatever the locale of the process says
+            stdin_content = sys.stdin.buffer.read().decode("utf-8")
 
             if not stdin_content.strip():
                 raise FileNotFoundError("No input provided on stdin")
@@ -289,7 +290,7 @@ def report(ctx: click.Context, tjp_file: Optional[str], output_csv: bool, output
             stdin_temp_file = Path(temp_path)
 
             # Write content and close file descriptor
-            with os.fdopen(temp_fd, "w") as f:
+            with os.fdopen(temp_fd, "w", encoding="utf-8") as f:
                 f.write(stdin_content)
 
             tjp_path = stdin_temp_file
@@ -364,7 +365,7 @@ def report(ctx: click.Context, tjp_file: Optional[str], output_csv: bool, output
             logger.debug("Reading report from: %s", primary_output)
 
         # Read the file content
-        with open(primary_output) as f:
+        with open(primary_output, encoding="utf-8") as f:
             report_content = f.read()
 
         # Replace report_id with SHA256 hash for JSON output
@@ -389,7 +390,7 @@ def report(ctx: click.Context, tjp_file: Optional[str], output_csv: bool, output
                 raise ReportGenerationError(f"Output file already exists: {output_path}\nUse --force to overwrite.")
 
             # Write to specified file
-            with open(output_path, "w") as f:
+            with open(output_path, "w", encoding="utf-8") as f:
                 f.write(report_content)
 
             if not quiet:
@@ -399,7 +400,8 @@ def report(ctx: click.Context, tjp_file: Optional[str], output_csv: bool, output
                 logger.debug("Wrote report to: %s", output_path)
         else:
             # Output to stdout (Unix way)
-            click.echo(report_content)
+            # Bytes, so that the report reads the same in a process whose locale is not UTF-8
+            click.echo(report_content.encode("utf-8"))
 
         # Clean up temp output directory (contains all generated files)
         if temp_output_dir and temp_output_dir.exists():
